@@ -81,7 +81,11 @@ def run(ctx):
                                                       [80, [0, 0, 1, 2, 0, 0, 0], [4, 0, 1, 1, 0, 0, 0]]])                     # polls mostly succeed again
     stats, samples = runlevel.ctl_replay(ctx, rep, "C13")
     traces = runlevel.get_pool(ctx)
+    # ONE WHOLE CALL of optimize() (Opt.init + Full.step + Opt.finish, the model of Props/C13Opt.lean): the loop is entered in the state the model
+    # DERIVES, the poll outcome is derived from the estimates of the evaluated candidates; mesh exponent compared after every iteration
+    wstats = runlevel.whole_replay(ctx, rep)
     rep.coverage = {
+        "whole_run_model": wstats,
         "evaluations": stats["iterations"], "distinct_nontrivial": stats["searches"] + stats["polls"],
         "rule": "one evaluation = one main-loop iteration of a traced real run replayed through Ctl.step (oracle: search outcome, per-evaluation poll improvements, stall tests; "
                 "determined and compared: func_count, recorded rows, search_count, search_success, search_spree, mesh exponents, poll_iteration, finished, message); "
